@@ -260,6 +260,25 @@ class Describer:
         sub = False
         if isinstance(it, ast.Subscript):
             it, sub = it.value, True
+        if isinstance(it, ast.Call) and isinstance(it.func, ast.Attribute) and it.func.attr == 'items' and not it.args \
+                and isinstance(it.func.value, ast.Name) and isinstance(bg[0], (ast.Tuple, ast.List)) and len(bg[0].elts) == 2:
+            # for key, value in D.items()
+            v = nearest_assignment(self.func.node, it.func.value.id, bg[0])
+            if isinstance(v, ast.DictComp):
+                if isinstance(bg[0].elts[0], ast.Name) and bg[0].elts[0].id == name:
+                    return self.describe(v.key, v.key, depth + 1, None)
+                if isinstance(bg[0].elts[1], ast.Name) and bg[0].elts[1].id == name:
+                    return self.describe(v.value, v.value, depth + 1, None)
+            return None
+        if isinstance(it, ast.Name) and row is not None:
+            # for x in value  where  (key, value) ranges over D.items()
+            bg2 = _binding_gen(self.func, it.id, row)
+            if bg2 is not None and isinstance(bg2[1], ast.Call) and isinstance(bg2[1].func, ast.Attribute) and bg2[1].func.attr == 'items' \
+                    and isinstance(bg2[0], (ast.Tuple, ast.List)) and len(bg2[0].elts) == 2 and isinstance(bg2[0].elts[1], ast.Name) \
+                    and bg2[0].elts[1].id == it.id and isinstance(bg2[1].func.value, ast.Name):
+                v = nearest_assignment(self.func.node, bg2[1].func.value.id, bg2[0])
+                if isinstance(v, ast.DictComp):
+                    return f'each({self.describe(v.value, v.value, depth + 1, None)})'
         if not isinstance(it, ast.Name):
             return None
         v = nearest_assignment(self.func.node, it.id, bg[0])
